@@ -6,8 +6,8 @@
 (*   $proposal      kernel/contract/proposal/propose/propose_contract.go           *)
 (*                  Propose, Vote, Thaw, CheckVoteResult, Trigger                  *)
 (*   $timer_task    kernel/contract/proposal/timer/timer_task_contract.go (Do)     *)
-(*   $tdpos         bcs/consensus/tdpos/kernel_contract.go: the Lock / UnLock      *)
-(*                  discipline of runVote / runRevokeVote (lock type "tdpos")      *)
+(*   $tdpos         bcs/consensus/tdpos/kernel_contract.go: nominateCandidate,     *)
+(*                  revokeNominate, voteCandidate, revokeVote (lock type "tdpos")  *)
 (* Same checks in the same order, same arithmetic (integers, no clamping).         *)
 (*                                                                                 *)
 (* The chain around the contracts is a single-miner node: a call that succeeds in  *)
@@ -21,12 +21,15 @@
 (***************************************************************************)
 EXTENDS Integers, Sequences, FiniteSets, TLC
 
-CONSTANTS Amounts,        \* amounts offered to Transfer / Vote / tdpos vote and revoke
+CONSTANTS Amounts,        \* amounts offered to Transfer / Vote
+          TAmounts,       \* amounts offered to the tdpos calls (nominate, vote, revoke vote)
+          Cands,          \* accounts offered as candidate of a tdpos vote / revoke
           ProposeLock,    \* the amount Propose locks (the code's constant "1000")
           MaxProps,       \* bound on the number of proposals of a behaviour
           StopDeltas,     \* Propose: stop_vote_height = current height + d
           TrigDeltas,     \* Propose: trigger height = 0 (none) if d = 0, else stop_vote_height + d
           Pcts,           \* Propose: min_vote_percent values offered (valid: 51..100)
+          Toks,           \* Propose: trigger targets offered: "ok" = existing kernel method, "bad" = a method that fails
           MaxOps,         \* bound on the length of a behaviour (generation)
           MaxH,           \* bound on the ledger height = number of successful calls of a behaviour
           LowAcc,         \* accounts whose concrete address starts with a byte >= '`' (lowercase base58 letter)
@@ -41,11 +44,10 @@ vars == <<st, hist>>
 Acc      == {"a", "b", "c"}
 AccSeq   == <<"a", "b", "c">>
 Predist  == <<"a", "b">>                         \* genesis predistribution, in order; "c" is fresh
-InitBal  == [a \in Acc |-> CASE a = "a" -> 3500 [] a = "b" -> 1500 [] OTHER -> 0]
+InitBal  == [a \in Acc |-> CASE a = "a" -> 3500 [] a = "b" -> 1000 [] OTHER -> 0]   \* genesis quotas (harness: -bal-a / -bal-b)
 LT       == {"ordinary", "tdpos"}                \* utils.GovernTokenTypeOrdinary / TDPOS
 ZeroLk   == [t \in LT |-> 0]
 PIds     == 1..MaxProps
-Toks     == {"ok", "bad"}                        \* trigger target: existing method / method that fails
 LockCallers == {"$proposal", "$tdpos", "$xpos"}  \* who may call Lock / UnLock
 DirectAmt == 500
 
@@ -58,7 +60,8 @@ S0 == [inited |-> FALSE,
        np     |-> 0,                             \* latest proposal id
        prop   |-> [p \in PIds |-> NoProp],       \* proposals (status, vote_amount, proposer, args, trigger)
        rec    |-> [p \in PIds |-> [a \in Acc |-> 0]],   \* lock_<id>_<account> records of $proposal
-       tv     |-> [a \in Acc |-> 0],             \* $tdpos ballots (vote bookkeeping of the caller contract)
+       nom    |-> [a \in Acc |-> 0],             \* $tdpos nominate record: candidate a nominated itself with this ballot (0: not nominated)
+       tv     |-> [c \in Acc |-> [v \in Acc |-> -1]],  \* $tdpos vote_<candidate> records: ballot of voter v (-1: no entry)
        h      |-> 0,                             \* ledger height (timer)
        tch    |-> {}]                            \* accounts on which Lock / UnLock ran in the current step
 
@@ -176,19 +179,44 @@ ThawEff(S, by, p, d) ==
        ELSE LET U == UnLockOp([S EXCEPT !.prop[p].st = "cancelled"], "$proposal", by, S.rec[p][by], "ordinary")
             IN IF U.ok THEN Ok(U.s) ELSE Fail(S)
 
-(* $tdpos runVote: Lock(initiator, amount, tdpos), then the ballot bookkeeping *)
-TVoteEff(S, by, amt, d) ==
-  IF amt <= 0 THEN Fail(S)
+(* $tdpos kernel contract.  checkArgs: the snapshot height passed by the client (the current tip) must be  *)
+(* above the consensus start height 0, so nothing works before the first block.  Every method locks /    *)
+(* unlocks FIRST and validates against its election records afterwards; a failed validation fails the    *)
+(* whole call (nothing is committed).                                                                     *)
+(* runNominateCandidate (candidate = initiator) *)
+TNomEff(S, by, amt, d) ==
+  IF S.h = 0 THEN Fail(S)
+  ELSE IF amt <= 0 THEN Fail(S)
   ELSE LET L == LockOp(S, "$tdpos", by, amt, "tdpos") IN
-       IF ~L.ok THEN Fail(S) ELSE Ok([L.s EXCEPT !.tv[by] = @ + amt])
+       IF ~L.ok THEN Fail(S)
+       ELSE IF S.nom[by] # 0 THEN Fail(S)                      \* The candidate had been nominate.
+       ELSE Ok([L.s EXCEPT !.nom[by] = amt])
 
-(* $tdpos runRevokeVote: UnLock first, then the ballot check (a failed check fails the whole call) *)
-TRevokeEff(S, by, amt, d) ==
-  IF amt <= 0 THEN Fail(S)
+(* runRevokeCandidate (candidate = initiator): UnLock of the nomination ballot, record deleted *)
+TRevNomEff(S, by, d) ==
+  IF S.h = 0 THEN Fail(S)
+  ELSE IF S.nom[by] = 0 THEN Fail(S)                           \* No valid candidate key when revoke.
+  ELSE LET U == UnLockOp(S, "$tdpos", by, S.nom[by], "tdpos") IN
+       IF ~U.ok THEN Fail(S) ELSE Ok([U.s EXCEPT !.nom[by] = 0])
+
+(* runVote *)
+TVoteEff(S, by, cand, amt, d) ==
+  IF S.h = 0 THEN Fail(S)
+  ELSE IF amt <= 0 THEN Fail(S)
+  ELSE LET L == LockOp(S, "$tdpos", by, amt, "tdpos") IN
+       IF ~L.ok THEN Fail(S)
+       ELSE IF S.nom[cand] = 0 THEN Fail(S)                    \* Addr in vote candidate hasn't been nominated.
+       ELSE Ok([L.s EXCEPT !.tv[cand][by] = IF @ = -1 THEN amt ELSE @ + amt])
+
+(* runRevokeVote: UnLock first, then the ballot check (no check that the candidate is still nominated) *)
+TRevokeEff(S, by, cand, amt, d) ==
+  IF S.h = 0 THEN Fail(S)
+  ELSE IF amt <= 0 THEN Fail(S)
   ELSE LET U == UnLockOp(S, "$tdpos", by, amt, "tdpos") IN
        IF ~U.ok THEN Fail(S)
-       ELSE IF S.tv[by] < amt THEN Fail(S)
-       ELSE Ok([U.s EXCEPT !.tv[by] = @ - amt])
+       ELSE IF S.tv[cand][by] = -1 THEN Fail(S)                \* no vote record / no entry of the voter
+       ELSE IF S.tv[cand][by] < amt THEN Fail(S)               \* Your vote amount is less than have.
+       ELSE Ok([U.s EXCEPT !.tv[cand][by] = @ - amt])
 
 -----------------------------------------------------------------------------
 (* Step scaffolding.  Eff(d) = [ok, s] under deviation set d.  A successful call is mined; a     *)
@@ -227,18 +255,21 @@ DirectTrigger(by, p) ==
   LET Eff(d) == Fail(st) IN Fire([op |-> "trigger", by |-> by, pid |-> p], Eff)
 
 Propose(by, stop, trig, pct, tok) ==
-  /\ st.np < MaxProps                                          \* generator bound
-  /\ LET Eff(d) == ProposeEff(st, by, stop, trig, pct, tok, d) IN
-     Fire([op |-> "propose", by |-> by, stop |-> stop, trig |-> trig, pct |-> pct, tok |-> tok], Eff)
+  LET Eff(d) == ProposeEff(st, by, stop, trig, pct, tok, d) IN
+  Fire([op |-> "propose", by |-> by, stop |-> stop, trig |-> trig, pct |-> pct, tok |-> tok], Eff)
 
 Vote(by, p, amt) ==
   LET Eff(d) == VoteEff(st, by, p, amt, d) IN Fire([op |-> "vote", by |-> by, pid |-> p, amt |-> amt], Eff)
 Thaw(by, p) ==
   LET Eff(d) == ThawEff(st, by, p, d) IN Fire([op |-> "thaw", by |-> by, pid |-> p], Eff)
-TVote(by, amt) ==
-  LET Eff(d) == TVoteEff(st, by, amt, d) IN Fire([op |-> "tvote", by |-> by, amt |-> amt], Eff)
-TRevoke(by, amt) ==
-  LET Eff(d) == TRevokeEff(st, by, amt, d) IN Fire([op |-> "trevoke", by |-> by, amt |-> amt], Eff)
+TNom(by, amt) ==
+  LET Eff(d) == TNomEff(st, by, amt, d) IN Fire([op |-> "tnom", by |-> by, amt |-> amt], Eff)
+TRevNom(by) ==
+  LET Eff(d) == TRevNomEff(st, by, d) IN Fire([op |-> "trevnom", by |-> by], Eff)
+TVote(by, cand, amt) ==
+  LET Eff(d) == TVoteEff(st, by, cand, amt, d) IN Fire([op |-> "tvote", by |-> by, cand |-> cand, amt |-> amt], Eff)
+TRevoke(by, cand, amt) ==
+  LET Eff(d) == TRevokeEff(st, by, cand, amt, d) IN Fire([op |-> "trevoke", by |-> by, cand |-> cand, amt |-> amt], Eff)
 Tick ==                      \* an empty block: only the timer transaction
   LET Eff(d) == Ok(st) IN Fire([op |-> "tick", by |-> "a"], Eff)
 
@@ -250,11 +281,14 @@ Next ==
      \/ \E by \in Acc, to \in Acc, amt \in Amounts : Transfer(by, to, amt)
      \/ \E by \in Acc, acct \in Acc, lt \in LT : DirectLock(by, acct, DirectAmt, lt) \/ DirectUnLock(by, acct, DirectAmt, lt)
      \/ \E p \in PIds : DirectCheck("a", p) \/ DirectTrigger("a", p)
-     \/ \E by \in Acc, sd \in StopDeltas, td \in TrigDeltas, pct \in Pcts, tok \in Toks :
-            Propose(by, st.h + sd, TrigOf(st.h + sd, td), pct, tok)
+     \/ /\ st.np < MaxProps                                   \* bound: at most MaxProps proposals
+        /\ \E by \in Acc, sd \in StopDeltas, td \in TrigDeltas, pct \in Pcts, tok \in Toks :
+               Propose(by, st.h + sd, TrigOf(st.h + sd, td), pct, tok)
      \/ \E by \in Acc, p \in PIds, amt \in Amounts : Vote(by, p, amt)
      \/ \E by \in Acc, p \in PIds : Thaw(by, p)
-     \/ \E by \in Acc, amt \in Amounts : TVote(by, amt) \/ TRevoke(by, amt)
+     \/ \E by \in Acc, amt \in TAmounts : TNom(by, amt)
+     \/ \E by \in Acc : TRevNom(by)
+     \/ \E by \in Acc, cand \in Cands, amt \in TAmounts : TVote(by, cand, amt) \/ TRevoke(by, cand, amt)
      \/ Tick
 
 Spec == Init /\ [][Next]_vars
@@ -281,11 +315,14 @@ Conservation == /\ st.inited => (SumBal(Len(AccSeq)) = st.supply /\ st.supply = 
 (* locks bind: no balance is below any of its locked amounts; nothing is negative *)
 LocksBind   == \A a \in Acc, t \in LT : st.lk[a][t] <= st.bal[a]
 NonNegative == \A a \in Acc : st.bal[a] >= 0 /\ \A t \in LT : st.lk[a][t] >= 0
-(* lock accounting: what is locked is exactly what unfinished proposals / tdpos ballots hold *)
+(* lock accounting: what is locked is exactly what unfinished proposals / tdpos nominations and ballots hold *)
 Active(p) == p <= st.np /\ st.prop[p].st \in {"voting", "passed"}
 RECURSIVE SumRec(_, _)
 SumRec(a, p) == IF p = 0 THEN 0 ELSE (IF Active(p) THEN st.rec[p][a] ELSE 0) + SumRec(a, p - 1)
-LockAccounting == \A a \in Acc : st.lk[a]["ordinary"] = SumRec(a, MaxProps) /\ st.lk[a]["tdpos"] = st.tv[a]
+RECURSIVE SumTv(_, _)
+SumTv(a, i) == IF i = 0 THEN 0 ELSE (IF st.tv[AccSeq[i]][a] > 0 THEN st.tv[AccSeq[i]][a] ELSE 0) + SumTv(a, i - 1)
+LockAccounting == \A a \in Acc : /\ st.lk[a]["ordinary"] = SumRec(a, MaxProps)
+                                  /\ st.lk[a]["tdpos"] = st.nom[a] + SumTv(a, Len(AccSeq))
 NoRecordsWithoutAccount == \A a \in Acc : ~st.ex[a] => (st.bal[a] = 0 /\ st.lk[a] = ZeroLk)
 TypeOK == st.np \in 0..MaxProps /\ st.tch = {}
 
